@@ -28,7 +28,8 @@ fn small_tree(rng: &mut Rng, n_files: usize) -> Vec<SrcFile> {
 pub fn build_tsan_cli(ctx: &Ctx) -> Result<PathBuf, String> {
     let target = ctx.build.join(format!("cli-tsan-{}", ctx.tag));
     let out = Command::new("cargo")
-        .args(["+nightly", "build", "--offline", "-Zbuild-std", "--target", "x86_64-unknown-linux-gnu", "-p", "typeshare-cli", "--features", "go,python", "--manifest-path"])
+        // release: the debug + TSan binary needs ~10 CPU seconds per run (regex / globset set-up), the optimised one 0.5 s
+        .args(["+nightly", "build", "--offline", "--release", "-Zbuild-std", "--target", "x86_64-unknown-linux-gnu", "-p", "typeshare-cli", "--features", "go,python", "--manifest-path"])
         .arg(ctx.repo.join("Cargo.toml"))
         .arg("--target-dir")
         .arg(&target)
@@ -39,7 +40,7 @@ pub fn build_tsan_cli(ctx: &Ctx) -> Result<PathBuf, String> {
     if !out.status.success() {
         return Err(String::from_utf8_lossy(&out.stderr).chars().rev().take(1500).collect::<String>().chars().rev().collect());
     }
-    Ok(target.join("x86_64-unknown-linux-gnu/debug/typeshare"))
+    Ok(target.join("x86_64-unknown-linux-gnu/release/typeshare"))
 }
 
 /// Run the TSan binary over trees x thread counts x delays (incl. error paths); count report blocks.
@@ -56,7 +57,7 @@ pub fn tsan_slice(ctx: &Ctx, rep: &mut Report) {
     let mut runs = 0u64;
     let mut blocks: BTreeMap<(bool, String), u64> = BTreeMap::new();
     let repo_s = ctx.repo.canonicalize().unwrap_or(ctx.repo.clone()).to_string_lossy().trim_end_matches('/').to_string();
-    let n_trees = 8;
+    let n_trees = 12;
     for t in 0..n_trees {
         let root = scratch.join(format!("t{t}"));
         let mut files = small_tree(&mut rng, 9);
@@ -68,7 +69,7 @@ pub fn tsan_slice(ctx: &Ctx, rep: &mut Report) {
             files.push(SrcFile { path: "src_root/cc/src/unparsable.rs".into(), source: "#[typeshare]\npub struct {{{{\n".into() });
         }
         write_tree(&root, &files);
-        let jobs: Vec<(usize, u64)> = [1usize, 2, 3, 4, 6, 8, 12, 16].into_iter().flat_map(|th| (0..6u64).map(move |d| (th, d))).collect();
+        let jobs: Vec<(usize, u64)> = (1..=16usize).flat_map(|th| (0..12u64).map(move |d| (th, d))).collect();
         let root_ref = &root;
         let bin_ref = &bin;
         let results: Vec<(i32, String)> = std::thread::scope(|s| {
@@ -135,12 +136,16 @@ pub fn tsan_slice(ctx: &Ctx, rep: &mut Report) {
                     let file = path.split(':').next().unwrap_or("").trim_start_matches(&repo_s).trim_start_matches('/').to_string();
                     format!("{sym} {file}")
                 };
-                match block.lines().find(|l| own(l)) {
+                // only the two access stacks say who touched the memory; the "Location is heap block allocated by" and
+                // "Thread T5 (..) created by main thread at" sections always end in typeshare's parallel_parse / main
+                let cut = ["\n  Location is", "\n  Thread T", "\n  Mutex M"].iter().filter_map(|m| block.find(m)).min().unwrap_or(block.len());
+                let accesses = &block[..cut];
+                match accesses.lines().find(|l| own(l)) {
                     Some(l) => *blocks.entry((true, format!("{kind}|{}", frame_of(l)))).or_insert(0) += 1,
                     None => {
                         let top = block.lines().find(|l| l.trim_start().starts_with("#0")).map(frame_of).unwrap_or_default();
                         // keep the crate, drop the registry hash and versions
-                        let krate = ["crossbeam_epoch", "crossbeam_deque", "crossbeam_channel", "ignore", "std", "core", "alloc"].iter().find(|c| block.contains(&format!("{c}::"))).copied().unwrap_or("other");
+                        let krate = ["crossbeam_epoch", "crossbeam_deque", "crossbeam_channel", "ignore", "std", "core", "alloc"].iter().find(|c| accesses.contains(&format!("{c}::"))).copied().unwrap_or("other");
                         let _ = top;
                         *blocks.entry((false, format!("{kind}|first-crate-in-stacks={krate}"))).or_insert(0) += 1
                     }
